@@ -219,7 +219,7 @@ package server
 //@   || rs[i].Status == spb.AFTResult_FIB_PROGRAMMED || rs[i].Status == spb.AFTResult_FAILED
 
 // ribReady: the RIB's representation invariants hold and this call chain holds none of its locks.
-//@ pred ribReady(r *rib.RIB) = holdersWF(r) && pendingWF(r) && ribQuiet(r) && rib.unixTS != nil
+//@ pred ribReady(r *rib.RIB) = holdersWF(r) && pendingWF(r) && ribQuiet(r) && rib.unixTS != nil && gateInv(r)
 
 // heldFor: the session each held (accepted but unresolved) operation was received from. C06: no
 // stream carries a result for an operation that was not sent on it - every result of a response is
